@@ -24,6 +24,8 @@
 (*                          file receives the PREVIOUS live value                                   *)
 (*   ClobbersOther          the assignment re-writes another attribute b with the value the entity  *)
 (*                          was stored with (a stale copy)                                          *)
+(*   StaleLive              the value is persisted but the getter keeps answering from a cache the  *)
+(*                          setter does not refresh: the file is right, the live object is not      *)
 EXTENDS Naturals, FiniteSets, Sequences, TLC, TLCExt, Json
 
 CONSTANTS
@@ -66,28 +68,33 @@ Lagging(a) == {s \in Slots \ {a} : live[s] # stored[s]}
 Persist(a, v, H) == [s \in Slots |-> IF s = a THEN v ELSE IF s \in H THEN live[s] ELSE stored[s]]
 
 Outcomes(a, t) ==
-    {[st |-> Persist(a, t, H), dev |-> "", b |-> 0, heal |-> H] : H \in SUBSET Lagging(a)}
+    {[st |-> Persist(a, t, H), lv |-> t, dev |-> "", b |-> 0, heal |-> H] : H \in SUBSET Lagging(a)}
     \cup
     (IF "ForgetsPersist" \in Deviations /\ stored[a] # t
-     THEN {[st |-> stored, dev |-> "ForgetsPersist", b |-> 0, heal |-> {}]} ELSE {})
+     THEN {[st |-> stored, lv |-> t, dev |-> "ForgetsPersist", b |-> 0, heal |-> {}]} ELSE {})
     \cup
     (IF "PersistsBeforeStoring" \in Deviations /\ live[a] # t
-     THEN {[st |-> Persist(a, live[a], H), dev |-> "PersistsBeforeStoring", b |-> 0, heal |-> H] :
+     THEN {[st |-> Persist(a, live[a], H), lv |-> t, dev |-> "PersistsBeforeStoring", b |-> 0, heal |-> H] :
               H \in SUBSET Lagging(a)}
      ELSE {})
     \cup
     (IF "ClobbersOther" \in Deviations
-     THEN UNION {{[st |-> [Persist(a, t, H) EXCEPT ![b] = 0], dev |-> "ClobbersOther", b |-> b, heal |-> H] :
+     THEN UNION {{[st |-> [Persist(a, t, H) EXCEPT ![b] = 0], lv |-> t, dev |-> "ClobbersOther", b |-> b, heal |-> H] :
                      H \in SUBSET (Lagging(a) \ {b})} :
                  b \in {s \in Slots \ {a} : stored[s] # 0}}
+     ELSE {})
+    \cup
+    (IF "StaleLive" \in Deviations /\ live[a] # t
+     THEN {[st |-> Persist(a, t, H), lv |-> live[a], dev |-> "StaleLive", b |-> 0, heal |-> H] :
+              H \in SUBSET Lagging(a)}
      ELSE {})
 
 Assign(act, a, t) ==
     /\ open
     /\ \E o \in Outcomes(a, t) :
           /\ stored' = o.st
+          /\ live' = [live EXCEPT ![a] = o.lv]
           /\ last' = Lbl(act, a, t, "ok", o.dev, o.b, o.heal)
-    /\ live' = [live EXCEPT ![a] = t]
     /\ want' = IF TrackWant THEN [want EXCEPT ![a] = t] ELSE want
     /\ Log(act, a, t)
     /\ UNCHANGED open
